@@ -78,6 +78,12 @@ def run_case(cs):
     # gitwildmatch strips unescaped leading/trailing blanks and gives # ! \\ [ ] * ? a meaning: only plain names become patterns
     dirpats = [os.path.basename(s) + "/" for s in rng.sample(subdirs, min(len(subdirs), 2)) if re.match(r"^[A-Za-z0-9_.][A-Za-z0-9_.-]*$", os.path.basename(s))]
     pool = NAMES + GLOBS + dirpats
+    if rng.random() < 0.25:
+        # patterns with a folder component (tied to the root folder), reaching into sub folders and nested histories
+        deep = sorted(k for k in tree if k.count("/") >= 1 and re.match(r"^[A-Za-z0-9_.~/-]+$", k) and not k.startswith("-"))
+        for k in rng.sample(deep, min(len(deep), 2)):
+            pool.append(rng.choice([k, "/".join(k.split("/")[:-1]) + "/*.tmp", "/".join(k.split("/")[-2:]), "/".join(k.split("/")[:-1]) + "/" + os.path.basename(k)[:1] + "*"]))
+            cs.count("anchored_patterns_in_pool")
     nested = rng.sample(subdirs, min(len(subdirs), rng.choice([0, 0, 1, 2])))
     first_pats = rng.sample(pool, rng.randint(1, 3))
     steps = []
